@@ -115,6 +115,42 @@ pub open spec fn in_first(g: Seq<Rule>, a: Seq<char>, t: DollarlessTerminalName)
 /// A derives the empty string
 pub open spec fn nullable(g: Seq<Rule>, a: Seq<char>) -> bool { exists|n: nat| nullable_n(g, n, a) }
 
+/// all right-hand-side symbols of the grammar, with repetitions
+pub open spec fn all_syms(g: Seq<Rule>) -> Seq<Symbol>
+    decreases g.len()
+{
+    if g.len() == 0 { Seq::empty() } else { all_syms(g.drop_last()) + rule_rhs(g.last()) }
+}
+pub proof fn lemma_all_syms_has(g: Seq<Rule>, ri: int, i: int)
+    requires 0 <= ri < g.len(), 0 <= i < rule_rhs(g[ri]).len()
+    ensures all_syms(g).contains(rule_rhs(g[ri])[i])
+    decreases g.len()
+{
+    let pre = all_syms(g.drop_last());
+    if ri == g.len() - 1 {
+        assert(g.last() == g[ri]);
+        assert(all_syms(g)[pre.len() + i] == rule_rhs(g[ri])[i]);
+    } else {
+        assert(g.drop_last()[ri] == g[ri]);
+        lemma_all_syms_has(g.drop_last(), ri, i);
+        let k = choose|k: int| 0 <= k < pre.len() && pre[k] == rule_rhs(g[ri])[i];
+        assert(all_syms(g)[k] == pre[k]);
+    }
+}
+/// a terminal of FIRST_n(A) occurs in some right-hand side
+pub proof fn lemma_first_n_in_syms(g: Seq<Rule>, n: nat, a: Seq<char>, t: DollarlessTerminalName)
+    requires first_n(g, n, a, t)
+    ensures all_syms(g).contains(Symbol::Terminal(t))
+    decreases n
+{
+    let ri = choose|ri: int| 0 <= ri < g.len() && rule_lhs(#[trigger] g[ri]) == a && seq_first_n(g, (n - 1) as nat, rule_rhs(g[ri]), t);
+    let syms = rule_rhs(g[ri]);
+    let i = choose|i: int| 0 <= i < syms.len() && prefix_nullable_n(g, (n - 1) as nat, syms, i)
+        && ((#[trigger] syms[i]) == Symbol::Terminal(t) || (syms[i] is Nonterminal && first_n(g, (n - 1) as nat, sym_name(syms[i]), t)));
+    if syms[i] == Symbol::Terminal(t) { lemma_all_syms_has(g, ri, i); }
+    else { lemma_first_n_in_syms(g, (n - 1) as nat, sym_name(syms[i]), t); }
+}
+
 /// an assignment of (terminal set, nullable flag) to nonterminal names
 pub struct FA {
     pub fst: spec_fn(Seq<char>, DollarlessTerminalName) -> bool,
